@@ -180,7 +180,7 @@ def synthetic_code_batches(scratch, versions, n_per_version, rng_tag):
             code, desc = CB.make_code(rng, v, tables)
             kind = "s" if v < (3, 0) else "B"
             items.append({"pyc": os.path.join(wd, "syn%05d.pyc" % i), "tag": "synthetic-code/%s/%s" % (K.vstr(v), desc[:80]),
-                          "fields": {"co_code": [kind, binascii.hexlify(code).decode()], "co_stacksize": ["i", "10"]}})
+                          "fields": {"co_code": [kind, binascii.hexlify(code).decode()], "co_stacksize": ["i", "a"]}})
         for bi, chunk in enumerate(K.chunks(items, 60)):
             batches.append({"v": v, "items": chunk, "mode": "mkcode", "truth_cmd": "mkcode", "workdir": wd, "tag": "syn%d" % bi})
     return batches
@@ -203,7 +203,7 @@ def synthetic_table_batches(scratch, versions, n_per_version, rng_tag):
         kind = "s" if v < (3, 0) else "B"
         for i in range(n_per_version):
             fl = rng.choice([1, 1, 7, 1000, 70000])
-            fields = {"co_firstlineno": ["i", str(fl)], "co_stacksize": ["i", "4"]}
+            fields = {"co_firstlineno": ["i", "%x" % fl], "co_stacksize": ["i", "4"]}
             if v >= (3, 11):
                 loc, units = LT.locations311(rng, fl)
                 fields["co_linetable"] = [kind, hx(loc)]
